@@ -309,6 +309,17 @@ def oracle(sc, obs):
     injected = [o is not None and o.startswith(INJ_PREFIX) for o in orig]
     if any(injected):
         probes["injected_recorded"] = 1
+        want_dir = {}
+        for o in sc.get("ops", []):
+            if o.get("who") == "addon":
+                want_dir.setdefault(B(o["data"]), set()).add(bool(o["to_client"]))
+        for i, m in enumerate(msgs):
+            if injected[i] and len(want_dir.get(orig[i], ())) == 1:
+                to_client = next(iter(want_dir[orig[i]]))
+                if bool(m.from_client) != (not to_client):
+                    v.append(_V("inject_direction", {"proto": P},
+                                f"message injected with to_client={to_client} was recorded with from_client={m.from_client}"))
+                    break
     for i, m in enumerate(msgs):
         if orig[i] is not None and bytes(m.content) != orig[i]:
             probes["edited"] = 1
@@ -325,11 +336,13 @@ def oracle(sc, obs):
     if msgs and not msgs[0].from_client and not injected[0]:
         probes["server_first"] = 1
 
+    tcp_rst = P == "tcp" and bool(c.peer_reset or (s is not None and s.peer_reset))
+
     def closed_by_itself(conn):
         if conn is None:
             return True
         if P == "tcp":
-            return conn.peer_reset
+            return tcp_rst      # a RST anywhere: only prefix-safety is demanded (see ASSUMPTIONS)
         return conn.peer_closed
 
     def why_missing(first, receiver):
@@ -342,10 +355,9 @@ def oracle(sc, obs):
             return "other"
         if P == "tcp" and receiver.eof_time is not None and receiver.eof_time <= rec[1]:
             return "proxy_had_sent_fin_to_receiver"   # eof_time is set by write_eof() only
-        if cs is not None and cs < rec[0]:
-            return "proxy_had_closed_receiver"
         if cs is not None and (hk is None or cs < hk[0]):
-            return "proxy_closed_receiver_while_hook_pending"
+            # before the message was recorded (it sat in the layer's queue) or while its hook was pending
+            return "proxy_closed_receiver_early"
         return "other"
 
     # ---- relay exactness + conservation per direction ----------------------------------------
@@ -417,10 +429,11 @@ def oracle(sc, obs):
                                 f"{[_short(x, 16) for x in fed]}"))
                 elif not errored and s is not None:
                     # datagrams fed before anything started to end the flow must have been recorded
-                    enders = [e[0] for e in obs.events if e[2] in ("peer_close", "idle_start")]
+                    # (clearly before: the proxy need not preserve the order of same-instant events on two sockets)
+                    enders = [e[1] for e in obs.events if e[2] in ("peer_close", "idle_start")]
                     first_end = min(enders) if enders else 10 ** 12
                     kind = sender.kind
-                    before = [e for e in obs.events if e[2] == "peer_send" and e[3] == kind and e[0] < first_end]
+                    before = [e for e in obs.events if e[2] == "peer_send" and e[3] == kind and e[1] < first_end - 0.0005]
                     if len(rec) < len(before):
                         v.append(_V("data_lost", {"proto": P, "when": "before_any_close", "both_peers_finned": False},
                                     f"{d}: {len(before)} datagrams were fed before anything closed, only {len(rec)} recorded"))
@@ -434,8 +447,10 @@ def oracle(sc, obs):
             if xf and not any_rst:
                 # Y must see X's FIN while Y itself is still open (or, if Y closed long after X, before that).
                 # Once both have closed the flow is over and what happens to the sockets is not this property's.
+                # (a FIN that arrived before the flow existed is owed from the flow's start on)
                 slack = sum((r_.get("latency") or 0) for r_ in sc.get("rules", [])) + 1.0
-                if yf is None or yf[1] > xf[1] + slack:
+                t_start = next((h[1] for h in hooks if h[2].endswith("_start")), 0.0)
+                if yf is None or yf[1] > max(xf[1], t_start) + slack:
                     if Y.eof_time is None or (yf is not None and Y.eof_time > yf[1]):
                         v.append(_V("fin_not_propagated", {"from": X.kind},
                                     f"{X.kind} sent FIN at t={xf[1]:.6f} but the {Y.kind} "
